@@ -1026,3 +1026,90 @@ def _install_fresh_like():
 
 
 _install_fresh_like()
+
+
+# ---------------------------------------------------------------------------------------------------- parse tree values
+class TupleOf(Kind):
+    """A tuple of fixed length whose components have the given kinds (children of a parse tree node)."""
+
+    def __init__(self, *kinds):
+        self.kinds = kinds
+
+    def build(self, ctx, mk):
+        out = []
+        for k_, kind in enumerate(self.kinds):
+            out.append(kind.build(ctx, lambda s, so, k_=k_: mk("!%d%s" % (k_, s), so)))
+        for v in out:
+            ctx.engine.assume_wellformed(ctx, v)
+        return tuple(out)
+
+    def sort(self):
+        raise EngineLimit("tuple has no single sort")
+
+
+class _OpaqueK(Kind):
+    def build(self, ctx, mk):
+        return V.Opaque("parse tree node")
+
+    def sort(self):
+        raise EngineLimit("opaque")
+
+
+OpaqueK = _OpaqueK()
+
+ASSUMED.update({
+    "int(str, base=0) / int(str)": "int(s, base) raises ValueError unless int_literal_ok(s, base) (the string is an integer "
+                                   "literal of that base; base 0: Python literal syntax with 0b/0o/0x prefixes); otherwise "
+                                   "it is the literal's value int_literal_value(s, base)",
+    "fractions.Fraction(str)": "Fraction(s) raises ValueError unless fraction_literal_ok(s); otherwise it is the exact decimal "
+                               "value fraction_literal_value(s)",
+})
+INT_OK = _uf("int_literal_ok", z3.StringSort(), z3.IntSort(), z3.BoolSort())
+INT_VALUE = _uf("int_literal_value", z3.StringSort(), z3.IntSort(), z3.IntSort())
+FRAC_OK = _uf("fraction_literal_ok", z3.StringSort(), z3.BoolSort())
+FRAC_VALUE = _uf("fraction_literal_value", z3.StringSort(), z3.RealSort())
+
+_orig_bi_int3 = Lib.bi_int
+
+
+def bi_int3(self, ctx, x=0, base=None):
+    if isinstance(x, z3.ExprRef) and z3.is_string(x) and base in (None, 0, 10):
+        b = z3.IntVal(10 if base is None else base)
+        if ctx.decide(z3.Not(INT_OK(x, b))):
+            raise self.raise_ext("ValueError", "int(): invalid literal")
+        return INT_VALUE(x, b)
+    return _orig_bi_int3(self, ctx, x, base)
+
+
+Lib.bi_int = bi_int3
+
+_orig_Fraction3 = Lib.bi_fractions_Fraction
+
+
+def bi_fractions_Fraction3(self, ctx, num=0, den=None):
+    if isinstance(num, z3.ExprRef) and z3.is_string(num) and den is None:
+        if ctx.decide(z3.Not(FRAC_OK(num))):
+            raise self.raise_ext("ValueError", "Fraction(): invalid literal")
+        return V.FractionV(FRAC_VALUE(num))
+    return _orig_Fraction3(self, ctx, num, den)
+
+
+Lib.bi_fractions_Fraction = bi_fractions_Fraction3
+Lib.bi_Fraction = bi_fractions_Fraction3
+Lib.bi_frac = bi_fractions_Fraction3
+
+
+_orig_global_name = Engine.global_name
+
+
+def global_name(self, ctx, module, name):
+    try:
+        return _orig_global_name(self, ctx, module, name)
+    except EngineLimit:
+        imp = module.imports.get(name)
+        if imp is not None and imp[0] == "from" and imp[1] in self.repo.modules:
+            return self.global_name(ctx, self.repo.modules[imp[1]], imp[2])
+        raise
+
+
+Engine.global_name = global_name
